@@ -302,6 +302,18 @@ func (r *vrec) note(k string, v any) {
 // violation records a property violation. Only the first few of each key keep
 // their full detail.
 func (r *vrec) violation(key, detail string, desc any) {
+	if !strings.HasPrefix(key, r.prop+" ") {
+		// an always-on monitor of another property fired: that property's own
+		// check reports it; here it is only counted
+		r.mu.Lock()
+		fk := "foreign_violation_observed " + key
+		r.counters[fk]++
+		if r.counters[fk] == 1 {
+			r.notes["example of "+fk] = detail
+		}
+		r.mu.Unlock()
+		return
+	}
 	r.mu.Lock()
 	r.violKeys[key]++
 	if r.violKeys[key] <= 3 && len(r.violations) < 200 {
